@@ -49,7 +49,13 @@ pub proof fn lemma_sel_sum_sw(gp: spec_fn(int) -> bool, gm: spec_fn(int) -> u64,
     requires 0 <= k <= vec.len(), bits.len() == vec.len(),
              forall|i: int| 0 <= i < vec.len() ==> gp(i) == #[trigger] bits[i] && gm(i) == vec[i].weight,
     ensures sel_sum(gp, gm, k) == sw(bits, vec, k),
-{ lemma_sel_sum_sw_rec(gp, gm, bits, vec, k); }
+{
+    assert forall|i: int| 0 <= i < vec.len() implies gp(i) == #[trigger] bits[i] && gm(i) == vec[i].weight by {
+        assert(gp(i) == bits[i]); assert(gm(i) == vec[i].weight);
+    }
+    assert(means_sum(gp, gm, bits, vec));
+    lemma_sel_sum_sw_rec(gp, gm, bits, vec, k);
+}
 pub open spec fn means_pairs<V>(gp: spec_fn(int) -> bool, gm: spec_fn(int) -> (V, PublicKey), msg: V, bits: Seq<bool>, vec: Seq<ValidatorInfo>) -> bool {
     forall|i: int| 0 <= i < vec.len() ==> gp(i) == #[trigger] bits[i] && gm(i) == (msg, vec[i].key)
 }
@@ -62,7 +68,14 @@ pub proof fn lemma_sel_seq_pairs<V>(gp: spec_fn(int) -> bool, gm: spec_fn(int) -
     requires 0 <= k <= vec.len(), bits.len() == vec.len(),
              forall|i: int| 0 <= i < vec.len() ==> gp(i) == #[trigger] bits[i] && gm(i) == (msg, vec[i].key),
     ensures sel_seq(gp, gm, k) == sel_pairs(msg, bits, vec, k),
-{ lemma_sel_seq_pairs_rec(gp, gm, msg, bits, vec, k); }
+{
+    assert forall|i: int| 0 <= i < vec.len() implies gp(i) == #[trigger] bits[i] && gm(i) == (msg, vec[i].key) by {
+        // (each conjunct stated on its own: the trigger term must be relevant to the solver before the hypothesis is instantiated)
+        assert(gp(i) == bits[i]); assert(gm(i) == (msg, vec[i].key));
+    }
+    assert(means_pairs(gp, gm, msg, bits, vec));
+    lemma_sel_seq_pairs_rec(gp, gm, msg, bits, vec, k);
+}
 
 // ---- R-chain templates (A1: documented semantics of Iterator::{enumerate, filter, map, sum}) ----
 // schedule.iter().enumerate().filter(P).map(M).sum::<u64>()      (Schedule::iter() is `self.vec.iter()`)
